@@ -1,16 +1,22 @@
 #!/bin/bash
-# usage: try_patch.sh <patch.diff> [ID ...]   - apply a seeded change to /repo, run the
-# repository suite and the given checks (default: all six, quick tier), undo it afterwards.
+# usage: try_patch.sh <patch.diff> [ID ...]   - apply a change to a scratch worktree of /repo
+# (never to /repo itself), run the repository suite and the given checks (default: all six,
+# quick tier; TIER=thorough for the other) against it via VERIF_REPO, remove the worktree.
 # Prints one line per check:  <ID> exit=<rc> <clause>
-P="$1"; shift
+P="$(readlink -f "$1")"; shift
 IDS="${@:-C13 C15 C16 C17 C18 C19}"
-cd /repo || exit 2
-if [ -n "$(git status --porcelain --untracked-files=no)" ]; then echo "/repo not clean"; exit 2; fi
-git apply "$P" || { echo "patch does not apply"; exit 2; }
-trap 'git -C /repo checkout -- . ; git -C /repo clean -fdq' EXIT
-/verif/tools/repotest.sh /repo | tail -3
+W=$(mktemp -d /tmp/trypatch.XXXXXX); rmdir $W
+git -C /repo worktree add -q --detach $W HEAD || exit 2
+trap 'git -C /repo worktree remove --force '$W' 2>/dev/null; git -C /repo worktree prune' EXIT
+(cd $W && git apply "$P") || { echo "patch does not apply"; exit 2; }
+/verif/tools/repotest.sh $W | tail -3
 for id in $IDS; do
-  out=$(cd /verif && VERIF_EVIDENCE_DIR=/tmp/try-evidence ./check $id ${TIER:-quick} 2>&1); rc=$?
+  out=$(cd /verif && VERIF_REPO=$W VERIF_EVIDENCE_DIR=/tmp/try-evidence ./check $id ${TIER:-quick} 2>&1); rc=$?
   echo "$id exit=$rc $(echo "$out" | grep -m1 '^violation:' | cut -c1-260)"
   [ $rc = 2 ] && echo "$out" | tail -5
+  if [ $rc = 1 ] && [ -n "${REPLAY:-}" ]; then
+    rp=$(echo "$out" | grep -o 'replay=.*' | cut -d= -f2)
+    (cd /verif && VERIF_REPO=$W ./check $id --replay "$rp" 2>&1 | grep -E "^replay:" | grep -o "=> .*")
+  fi
 done
+exit 0
